@@ -43,7 +43,7 @@ def sopts(rng, tier="quick"):
         # bigger schemas in the thorough tier
         return smodel.GenOpts(p_mutation=0.35, n_objects=(4, 10), n_interfaces=(1, 4), n_unions=(0, 3), n_enums=(1, 3),
                               n_inputs=(0, 3), n_scalars=(0, 2), fields=(2, 7))
-    return smodel.GenOpts(p_mutation=0.35, p_schema_pass=0.15)
+    return smodel.GenOpts(p_mutation=0.35, p_schema_pass=0.15, p_non_introspectable=0.08)
 
 
 def dopts(rng, tier="quick"):
